@@ -186,6 +186,9 @@ func (e *Engine) ledgerSnapshot(extra []string) map[string]*big.Int {
 	}
 	out[moduleBech()] = e.C.Balance(sdk.AccAddress(ct.ModuleAddress), e.MintDenom())
 	out[LongAcct()] = e.C.Balance(LongAcctBytes(), e.MintDenom())
+	for _, a := range []string{VeryLongAcct(), TinyAcct(), HugeAcct()} {
+		out[a] = e.C.Balance(addrBytes(a), e.MintDenom())
+	}
 	for _, a := range append(extra, e.Watch...) {
 		if _, ok := out[a]; !ok && validAddr(a) {
 			out[a] = e.C.Balance(addrBytes(a), e.MintDenom())
